@@ -617,7 +617,7 @@ fn c03(args: &Args) -> ! {
         registered.dedup();
         let has_dups = registered.len() != cfg.len();
         // --- routing of pipelined pairs (both requests in one handle() call)
-        if replay.as_ref().map(|c| c.get("pair").is_some()).unwrap_or(true) {
+        if replay.as_ref().map(|c| c.get("pair").is_some()).unwrap_or(true) && replay.as_ref().map(|c| c.get("behind").is_none()).unwrap_or(true) {
             let mut names: Vec<&str> = POOL.iter().map(|p| p.0).collect();
             names.extend(UNREG.iter());
             names.push("org.varlink.service");
@@ -664,7 +664,59 @@ fn c03(args: &Args) -> ! {
                 }
             }
         }
-        if replay.as_ref().map(|c| c.get("pair").is_some()).unwrap_or(false) {
+        // --- a routable call directly behind an unroutable one in the same batch (no dot, empty, leading or
+        // trailing dot; answered or, when oneway, silently dropped): it must still reach its interface
+        if replay.as_ref().map(|c| c.get("behind").is_some()).unwrap_or(true) {
+            let mut names: Vec<&str> = POOL.iter().map(|p| p.0).collect();
+            names.extend(UNREG.iter());
+            names.push("org.varlink.service");
+            for m1 in ["Ping", "", ".", ".x", "x.", "org"] {
+                for ow in [false, true] {
+                    for n2 in &names {
+                        let m2 = format!("{}.M", n2);
+                        let case = json!({"cfg": cfg, "behind": [m1, ow, m2]});
+                        if let Some(c) = &replay {
+                            if c["behind"] != case["behind"] {
+                                continue;
+                            }
+                        }
+                        rep.eval(Some(&case.to_string()));
+                        seen.lock().unwrap().clear();
+                        let first = if ow { json!({"method": m1, "oneway": true}) } else { json!({"method": m1}) };
+                        let mut b = serde_json::to_vec(&first).unwrap();
+                        b.push(0);
+                        b.extend(serde_json::to_vec(&json!({"method": m2, "parameters": {"n": 2}})).unwrap());
+                        b.push(0);
+                        let run = feed(&svc, &[b]);
+                        if let Some(pm) = &run.panicked {
+                            rep.violation("C03/panic", pm, case);
+                            continue;
+                        }
+                        let saw = seen.lock().unwrap().clone();
+                        let replies = parse_replies(&run.out).unwrap_or_default();
+                        let mut want_replies: Vec<Pred> = vec![];
+                        if !ow {
+                            want_replies.push(Pred { continues: false, error: ErrSpec::AnyError, params: ParamSpec::Any });
+                        }
+                        let mut want_seen: Vec<(String, String)> = vec![];
+                        if registered.contains(n2) {
+                            want_seen.push((n2.to_string(), m2.clone()));
+                            want_replies.push(Pred::ok(ParamSpec::Exact(json!({"who": n2}))));
+                        } else if *n2 == "org.varlink.service" {
+                            want_replies.push(Pred::err("org.varlink.service.MethodNotFound", ParamSpec::Contains(json!({"method": m2}))));
+                        } else {
+                            want_replies.push(Pred::err("org.varlink.service.InterfaceNotFound", ParamSpec::Contains(json!({"interface": n2}))));
+                        }
+                        let got_seen: Vec<(String, String)> = saw.iter().map(|s| (s.iter_name(), s.method.clone())).collect();
+                        let ok = got_seen == want_seen && replies.len() == want_replies.len() && want_replies.iter().zip(replies.iter()).all(|(p, r)| p.matches(r));
+                        if !ok {
+                            rep.violation("C03/misrouted-behind-unroutable", &format!("expected recorders to see {:?} and replies {:?}; saw {:?}, replies {:?}, handle() error {:?}", want_seen, want_replies, got_seen, replies, run.err), case);
+                        }
+                    }
+                }
+            }
+        }
+        if replay.as_ref().map(|c| c.get("pair").is_some() || c.get("behind").is_some()).unwrap_or(false) {
             continue;
         }
         // --- routing
